@@ -53,6 +53,11 @@ ConfigOK(e) ==
   /\ \A name \in DOMAIN i.cones : Has(c, "cone_" \o name) /\ c["cone_" \o name] = i.cones[name]
   /\ \A name \in {"Zero", "Nonnegative", "SecondOrder", "Exponential", "Power", "GenPower", "PSDTriangle"} :
         Has(c, "cone_" \o name) => name \in DOMAIN i.cones
+  \* the linear-algebra line names the backend actually in use
+  /\ Has(c, "linalg") /\ c.linalg = i.linalg
+  \* a chordal decomposition block appears exactly when a decomposition is active, with the settings and counts in force
+  /\ Has(c, "chordal") <=> i.chordal_active
+  /\ i.chordal_active => \A k \in DOMAIN i.chordal : Has(c.chordal, k) /\ c.chordal[k] = i.chordal[k]
   \* cone dimensions by type: all of them up to five, otherwise the first four, an ellipsis and the last one
   /\ \A name \in DOMAIN i.dims : Has(c, "dims_" \o name) /\ c["dims_" \o name] = ShownDims(i.dims[name])
 
